@@ -137,7 +137,7 @@ func (e *env) refresh(specs []string) {
 
 // ---- specifier admission ----
 
-var walletNames = []string{"Wallet 1", "Wallet 2", "W"}
+var walletNames = []string{"Wallet 1", "Wallet 2", "W", "XW", "My Wallet 1"} // two of them end with the name of another
 var acctNames = []string{"a", "b", "aX", "Xb", "Validator 1", "Validator 12", "Validator 2", "XValidator 1", "Val", "ab", "ba"}
 var acctExprs = []string{"a", "Validator 1", "Validator.*", "Validator [12]", "Validator.*[02468]", ".*", "(a|b)", "Validator (1|2)", "Val.*", "a.", "[ab]+", "a?b"}
 var bareAlts = []string{"a|b", "Validator 1|Validator 2", "Val|b"}
@@ -484,7 +484,7 @@ func lifecycle(c *harness.Ctx) {
 			check("fresh", recs)
 			// refresh outcomes that must not wipe what is known
 			old := append([]rec{}, recs...)
-			outcome := []string{"validators-empty", "validators-error", "accounts-empty"}[r.Intn(3)]
+			outcome := []string{"validators-empty", "validators-error", "accounts-empty", "accounts-empty-while-records-change"}[r.Intn(4)]
 			switch outcome {
 			case "validators-empty":
 				e.beacon.mu.Lock()
@@ -498,6 +498,23 @@ func lifecycle(c *harness.Ctx) {
 				e.beacon.mu.Unlock()
 				e.refresh([]string{"W"})
 				check(outcome, old)
+			case "accounts-empty-while-records-change":
+				// the signer is unreachable (the old account list is kept) while validators exit / activate on the chain:
+				// the kept accounts are judged by what the beacon node says now
+				if kind == "dirk" {
+					for k := range recs {
+						if r.Intn(2) == 0 {
+							nr := genRec(r, recs[k].Index)
+							nr.Known = recs[k].Known || nr.Known
+							recs[k] = nr
+						}
+					}
+					setRecords()
+					wallets["W"].Accts = nil
+					e.refresh([]string{"W"})
+					check(outcome, recs)
+					wallets["W"].Accts = list
+				}
 			case "accounts-empty":
 				if kind == "dirk" { // the statement is about the remote signer
 					wallets["W"].Accts = nil
